@@ -24,6 +24,7 @@ pub fn sr<S: Src, const NB: usize, const B: usize>(s: &mut S) {
     let c = SrCfg::<NB>::draw(s);
     let k = s.upto(if NB > 0 { NB - 1 } else { 0 });
     let mut buf = [0xA5u8; B];
+    let mut seen = (false, false);
     match c.builder().write_into(&mut buf) {
         Ok(n) => {
             let p = SenderReport::parse(&buf[..n]).expect("own parser rejects the built SR");
@@ -41,17 +42,19 @@ pub fn sr<S: Src, const NB: usize, const B: usize>(s: &mut S) {
             } else {
                 assert!(p.report_blocks().next().is_none());
             }
-            vcover!(c.padding == 252, "maximum padding");
-            vcover!(c.padding == 0, "no padding");
+            seen = (c.padding == 252, c.padding == 0);
         }
         Err(e) => rejection_is_justified(&e, c.valid()),
     }
+    vcover!(NB > 31 || seen.0, "maximum padding");
+    vcover!(NB > 31 || seen.1, "no padding");
 }
 
 pub fn rr<S: Src, const NB: usize, const B: usize>(s: &mut S) {
     let c = RrCfg::<NB>::draw(s);
     let k = s.upto(if NB > 0 { NB - 1 } else { 0 });
     let mut buf = [0xA5u8; B];
+    let mut seen = (false, false);
     match c.builder().write_into(&mut buf) {
         Ok(n) => {
             let p = ReceiverReport::parse(&buf[..n]).expect("own parser rejects the built RR");
@@ -65,11 +68,12 @@ pub fn rr<S: Src, const NB: usize, const B: usize>(s: &mut S) {
             } else {
                 assert!(p.report_blocks().next().is_none());
             }
-            vcover!(c.padding == 252, "maximum padding");
-            vcover!(c.padding == 0, "no padding");
+            seen = (c.padding == 252, c.padding == 0);
         }
         Err(e) => rejection_is_justified(&e, c.valid()),
     }
+    vcover!(NB > 31 || seen.0, "maximum padding");
+    vcover!(NB > 31 || seen.1, "no padding");
 }
 
 /// The same through the generic parser and the compound iterator's entry point.
